@@ -46,6 +46,11 @@ type GenOpts struct {
 	Groups   int // max index groups
 	NoReopen bool
 	NoReads  bool
+	// ForceSync makes every writer synchronous (crash enumeration attributes filesystem
+	// calls to the script operation that is executing).
+	ForceSync bool
+	// MaxWrite bounds the samples per write (default 40).
+	MaxWrite int
 	// SmallTime keeps timestamps within a small range (crash enumeration, iterators).
 	SmallTime bool
 }
@@ -293,6 +298,9 @@ func Gen(t *rapid.T, o GenOpts) Script {
 			w := st.Writers[pickWriter(t, st)]
 			op := Op{Kind: "write", W: w.ID, Seed: uint64(rapid.IntRange(0, 1<<30).Draw(t, "seed"))}
 			k := rapid.IntRange(1, 40).Draw(t, "k")
+			if o.MaxWrite > 0 && k > o.MaxWrite {
+				k = rapid.IntRange(1, o.MaxWrite).Draw(t, "k-capped")
+			}
 			if rapid.IntRange(0, 3).Draw(t, "small") > 0 {
 				k = rapid.IntRange(1, 5).Draw(t, "k-small")
 			}
@@ -390,7 +398,7 @@ func genOpen(t *rapid.T, st *State, indexes []uint32, o GenOpts) (Op, bool) {
 	op := Op{Kind: "open", W: st.NextW,
 		AutoCommit:    rapid.IntRange(0, 2).Draw(t, "auto_commit") > 0,
 		PersistAlways: rapid.Bool().Draw(t, "persist_always"),
-		Sync:          rapid.IntRange(0, 3).Draw(t, "sync") > 0,
+		Sync:          rapid.IntRange(0, 3).Draw(t, "sync") > 0 || o.ForceSync,
 	}
 	ic := st.M.Chans[idx]
 	// data-only writer (writes.mdx "Example 2"): start on an existing index sample
